@@ -91,6 +91,10 @@ def generate(seed, tier, batch):
         n = g["n"]
         sel = r.choice(["uniform", "degree", "weight", "weight"])
         wts = [r.choice([1, 1, 2, 3]) for _ in range(n)] if sel == "weight" else None
+        if wts and r.random() < 0.35:
+            # large weights that differ by one unit: distinct numbers, not ties (a tolerance-based comparison would merge them)
+            base = r.choice([100000, 1000000, 3.0e7])
+            wts = [base + w_ for w_ in wts]
         routine = r.choice(["grow", "swap", "shrink", "shrink", "search"])
         if routine == "shrink" and sel == "degree":
             sel = "uniform"
@@ -102,6 +106,9 @@ def generate(seed, tier, batch):
         n = g["n"]
         sel = r.choice(["uniform", "weight", "weight"])
         wts = [r.choice([1, 1, 2, 3]) for _ in range(n)] if sel == "weight" else None
+        if wts and r.random() < 0.35:
+            base = r.choice([100000, 1000000, 3.0e7])
+            wts = [base + w_ for w_ in wts]
         routine = r.choice(["resize", "resize", "update_list", "search", "search"])
         start = sorted(r.sample(range(n), r.randint(1, n)))
         lo = r.randint(1, n)
